@@ -23,9 +23,9 @@ type Clause struct {
 	Props  []string // property ids this clause belongs to (empty: function default)
 	Src    string
 	Expr   ast.Expr
-	Panics bool // requires whose violation is a panic of the callee (nopanic obligation at call sites)
-	Ground bool // prove from the ground (quantifier-free) part of the assumptions only
-	All    bool // hint that must be expressible and hold at every return site
+	Panics bool   // requires whose violation is a panic of the callee (nopanic obligation at call sites)
+	Ground bool   // prove from the ground (quantifier-free) part of the assumptions only
+	All    bool   // hint that must be expressible and hold at every return site
 	Apply  string // hint only: "lemma with x = e, ...": a lemma instance assumed at the return sites (terms may name locals)
 	Known  string
 }
@@ -38,43 +38,43 @@ type LoopSpec struct {
 }
 
 type Contract struct {
-	Key       string // function key (package relative for repo, full for prelude)
-	View      string // "" or the name of the view (level of abstraction) this contract belongs to; Key ends in "@<view>"
-	PkgPath   string // package the key is relative to ("" for prelude)
-	File      string
-	Props     []string
-	Requires  []*Clause
-	Ensures   []*Clause
-	Modifies  []string
-	ModAll    bool
-	Lets      []LetDef
-	Loops     map[int]*LoopSpec
-	Iters     map[int]*LoopSpec // invariants for iterate-with-closure call sites, by ordinal
-	Trusted   bool
-	Pure      bool
-	Inline    bool
-	Concrete  bool // strings concrete
-	Bounded   int
-	NoPanic   bool // claim nopanic obligations
-	Overflow  bool
-	Uses      []string
-	Vars      []LemmaVar // lemma only
-	IsLemma   bool
-	Preserves []*Clause // closure contracts: facts over captured variables and world that hold before and after each call (requires + ensures); the iterating caller checks them once and may assume them afterwards
-	Steps     []*Clause // closure contracts: reflexive-transitive two-state relations established by every call
-	Iterates  bool      // the function applies its closure argument to each element of a collection (A-ITER)
-	Hints     []*Clause // intermediate facts at the return sites (may mention named locals); proved, then assumed
-	Canary    []*Clause // deliberately false ensures: must be refuted
-	EffectFree bool
-	Assumes   []string // free text assumptions recorded in evidence
-	ArgNames  []string // explicit parameter names for prelude contracts
-	Allocates bool     // the callee may allocate fresh slices/maps (fresh(result) is meaningful)
-	Applies   []string // "lemmaName with x = e, y = e": instances of other lemmas of the same package, assumed (the lemma itself is an obligation of its own)
-	Opaque    []string // spec functions whose definitions are hidden (declared, not defined) in this function's VCs
-	used      bool
+	Key          string // function key (package relative for repo, full for prelude)
+	View         string // "" or the name of the view (level of abstraction) this contract belongs to; Key ends in "@<view>"
+	PkgPath      string // package the key is relative to ("" for prelude)
+	File         string
+	Props        []string
+	Requires     []*Clause
+	Ensures      []*Clause
+	Modifies     []string
+	ModAll       bool
+	Lets         []LetDef
+	Loops        map[int]*LoopSpec
+	Iters        map[int]*LoopSpec // invariants for iterate-with-closure call sites, by ordinal
+	Trusted      bool
+	Pure         bool
+	Inline       bool
+	Concrete     bool // strings concrete
+	Bounded      int
+	NoPanic      bool // claim nopanic obligations
+	Overflow     bool
+	Uses         []string
+	Vars         []LemmaVar // lemma only
+	IsLemma      bool
+	Preserves    []*Clause // closure contracts: facts over captured variables and world that hold before and after each call (requires + ensures); the iterating caller checks them once and may assume them afterwards
+	Steps        []*Clause // closure contracts: reflexive-transitive two-state relations established by every call
+	Iterates     bool      // the function applies its closure argument to each element of a collection (A-ITER)
+	Hints        []*Clause // intermediate facts at the return sites (may mention named locals); proved, then assumed
+	Canary       []*Clause // deliberately false ensures: must be refuted
+	EffectFree   bool
+	Assumes      []string // free text assumptions recorded in evidence
+	ArgNames     []string // explicit parameter names for prelude contracts
+	Allocates    bool     // the callee may allocate fresh slices/maps (fresh(result) is meaningful)
+	Applies      []string // "lemmaName with x = e, y = e": instances of other lemmas of the same package, assumed (the lemma itself is an obligation of its own)
+	Opaque       []string // spec functions whose definitions are hidden (declared, not defined) in this function's VCs
+	used         bool
 	mentionedIDs map[string]bool
-	Params    []string // parameter names (receiver first) when the contract was written: a renamed parameter is found by position
-	Locals    []string // named locals of the function in source order when the contract was written (bin/gen-locals)
+	Params       []string // parameter names (receiver first) when the contract was written: a renamed parameter is found by position
+	Locals       []string // named locals of the function in source order when the contract was written (bin/gen-locals)
 }
 
 type LetDef struct {
